@@ -2,7 +2,7 @@
 pub open spec fn dom_disjoint(ids: Set<u64>, st: Map<u64, F64>) -> bool { forall|k: u64| #[trigger] ids.contains(k) ==> !st.contains_key(k) }
 // what the epsilon-dropping merges of Quadratic/Polynomial::partial_evaluate remove (documented "dropping of coefficients below
 // machine epsilon"); 0 for constants and linear functions.  Uninterpreted: nothing is assumed about its size here.
-pub uninterp spec fn quad_pe_rem(q: v1::Quadratic, st: Map<u64, F64>, m: Map<u64, F64>) -> real;
+// quad_pe_rem: DEFINED in spec/qpe_spec.rs (entries of the exact linear part that Linear::new drops)
 pub uninterp spec fn poly_pe_rem(p: v1::Polynomial, st: Map<u64, F64>, m: Map<u64, F64>) -> real;
 pub open spec fn fn_pe_rem(f: v1::Function, st: Map<u64, F64>, m: Map<u64, F64>) -> real {
     match f.function {
